@@ -166,16 +166,21 @@ fn splice_lazy_impl<E: Elem, Tr: ?Sized + TrSet + Cloneable, M1: MemB, M2: MemB>
     }
 }
 
-/// Consume `n` copies of a lazy clone into `dst`.
-fn lazy_consume<E: Elem, Tr: ?Sized + TrSet, M2: MemB, L: AnyValue + Clone>(lz: &L, dst: &mut AnyVec<Tr, M2>, r: &RStep) {
+/// Consume `n` copies of a lazy clone: into `dst` (push / insert / splice) or by downcast.
+fn lazy_consume<E: Elem, Tr: ?Sized + TrSet, M2: MemB, L: AnyValue + Clone>(lz: &L, dst: &mut AnyVec<Tr, M2>, r: &RStep, pool: &mut Vec<E>) {
     for _ in 0..r.n {
         let c = lz.clone();
         match r.sink {
             0 => lib(|| dst.push(c)),
             1 => lib(|| dst.insert(0, c)),
-            _ => {
+            2 => {
                 let it = lib(|| dst.splice(0..0, [c]));
                 lib(|| drop(it));
+            }
+            _ => {
+                // typed consumption: the clone is made straight into the returned value
+                let x = lib(|| c.downcast::<E>()).expect("LIB: downcast to the real type");
+                pool.push(x);
             }
         }
     }
@@ -188,6 +193,7 @@ fn lazy_chain<E: Elem, Tr: ?Sized + TrSet, M2: MemB, S: AnyValueCloneable + AnyV
     dst: &mut AnyVec<Tr, M2>,
     r: &RStep,
     ok: &mut bool,
+    pool: &mut Vec<E>,
 ) {
     let c0 = counters();
     let l1: LazyClone<S> = lib(|| s.lazy_clone());
@@ -197,13 +203,13 @@ fn lazy_chain<E: Elem, Tr: ?Sized + TrSet, M2: MemB, S: AnyValueCloneable + AnyV
         1 => {
             let c1 = counters();
             *ok &= c0.clones == c1.clones && c0.drops == c1.drops;
-            lazy_consume::<E, Tr, M2, _>(&l1, dst, r);
+            lazy_consume::<E, Tr, M2, _>(&l1, dst, r, pool);
         }
         2 => {
             let l2 = lib(|| l1.lazy_clone());
             let c1 = counters();
             *ok &= c0.clones == c1.clones && c0.drops == c1.drops;
-            lazy_consume::<E, Tr, M2, _>(&l2, dst, r);
+            lazy_consume::<E, Tr, M2, _>(&l2, dst, r, pool);
         }
         _ => {
             let l2 = lib(|| l1.lazy_clone());
@@ -211,7 +217,7 @@ fn lazy_chain<E: Elem, Tr: ?Sized + TrSet, M2: MemB, S: AnyValueCloneable + AnyV
             let copy3 = l3.clone();
             let c1 = counters();
             *ok &= c0.clones == c1.clones && c0.drops == c1.drops;
-            lazy_consume::<E, Tr, M2, _>(&l3, dst, r);
+            lazy_consume::<E, Tr, M2, _>(&l3, dst, r, pool);
             drop(copy3);
         }
     }
@@ -234,21 +240,21 @@ fn lazy_op_impl<E: Elem, Tr: ?Sized + TrSet + Cloneable, M1: MemB, M2: MemB>(
             let e = lib(|| v.at(r.i));
             let seen = tag_of::<_, E>(&*e);
             cx.ev.push(seen);
-            lazy_chain::<E, Tr, M2, _>(&*e, dst, r, &mut ok);
+            lazy_chain::<E, Tr, M2, _>(&*e, dst, r, &mut ok, cx.pool);
             ok &= tag_of::<_, E>(&*e) == seen;
         }
         1 => {
             let e = lib(|| v.at_mut(r.i));
             let seen = tag_of::<_, E>(&*e);
             cx.ev.push(seen);
-            lazy_chain::<E, Tr, M2, _>(&*e, dst, r, &mut ok);
+            lazy_chain::<E, Tr, M2, _>(&*e, dst, r, &mut ok, cx.pool);
             ok &= tag_of::<_, E>(&*e) == seen;
         }
         2 => {
             let h = lib(|| v.remove(r.i));
             let seen = tag_of::<_, E>(&h);
             cx.ev.push(seen);
-            lazy_chain::<E, Tr, M2, _>(&h, dst, r, &mut ok);
+            lazy_chain::<E, Tr, M2, _>(&h, dst, r, &mut ok, cx.pool);
             ok &= tag_of::<_, E>(&h) == seen;
             lib(|| drop(h));
         }
@@ -257,7 +263,7 @@ fn lazy_op_impl<E: Elem, Tr: ?Sized + TrSet + Cloneable, M1: MemB, M2: MemB>(
             let item = lib(|| d.next()).expect("LIB: one drained element");
             let seen = tag_of::<_, E>(&item);
             cx.ev.push(seen);
-            lazy_chain::<E, Tr, M2, _>(&item, dst, r, &mut ok);
+            lazy_chain::<E, Tr, M2, _>(&item, dst, r, &mut ok, cx.pool);
             ok &= tag_of::<_, E>(&item) == seen;
             lib(|| drop(item));
             lib(|| drop(d));
